@@ -64,12 +64,15 @@ theorem w_no_write {s : St} {i : Nat} {a : WAct} {p q : WP} (hm : MInv s) (hthd 
     (hw : WFacts s i a p q) : wWrite s.g a p (tsAt s i) = tsAt s i := by
   obtain ⟨hi, hpci, hn, hgT, hgO⟩ := hw
   have ⟨tp, _⟩ := tbl_holdsT hn
-  have hnl : a ≠ .lockT := by intro hc; have := hgT hc; rw [hthd] at this; cases this
+  have hnl : a.locksT = false := by
+    cases hc : a.locksT with
+    | false => rfl
+    | true => have := hgT hc; rw [hthd] at this; cases this
   have hnt : a ≠ .time := by
     intro hc
     have := (hm.thdW i).mpr (by rw [hpci]; exact tp.mpr (Or.inl hc))
     rw [hthd] at this; cases this
-  cases a <;> cases p <;> simp_all [wWrite]
+  cases a <;> cases p <;> simp_all [wWrite, WAct.locksT]
 
 theorem ainv_step {s s' : St} {l : Label} (h : Inv s) (ha : AInv s) (hs : step s l = some s') : AInv s' := by
   have hx := step_live hs
